@@ -13,10 +13,11 @@ def setup(E, real_hex=True):
     procenv.install(E)
     if real_hex: E.stubs.pop('_Z6HexStrB5cxx114SpanIKhE', None)
 
-def run_main(E, args, tty=(1, 0, 1), stdin=None, assume=(), fn='@w_btcdeb_main'):
+def run_main(E, args, tty=(1, 0, 1), stdin=None, assume=(), fn='@w_btcdeb_main', aux=None):
     """args: list of byte lists (ints / 8-bit terms). returns final states; f.result is ('ret', code) | ('exit', code) | ('uncaught', ..) | ('violation', ..)"""
     st = E.new_state(); st.pc = list(assume); st.model = None
     st.aux['tty'] = tty
+    if aux: st.aux.update(aux)
     if stdin is not None: st.aux['stdin'] = list(stdin)
     argc, av = procenv.make_argv(E, st, args)
     E.call(st, fn, [argc, av])
